@@ -9,7 +9,7 @@ from fractions import Fraction
 
 import numpy as np
 
-from vlib import core
+from vlib import core, engine_corr
 from vlib.core import q, unq
 
 PROPERTY = "C03"
@@ -22,8 +22,8 @@ THEOREMS = [
     "Atomica.C03.grid_prefix",
 ]
 TRUSTED = ["float rounding of start + k*dt vs numpy.linspace (compared to 1e-9 absolute)"]
-RULE = "grid: cross product of start/end pairs x step sizes (incl. non-representable and non-dividing); non-trivial = span not an exact float multiple of dt or dt not a dyadic rational"
-EXPECTED_BRANCHES = ["grid.divides", "grid.nondividing", "grid.dt_inexact"]
+RULE = "engine: generated models, every step replayed through one exact model step (see C01); grid: cross product of start/end pairs x step sizes (incl. non-representable and non-dividing); non-trivial = span not an exact float multiple of dt or dt not a dyadic rational"
+EXPECTED_BRANCHES = ["grid.divides", "grid.nondividing", "grid.dt_inexact", "rescale.active", "has.transfer", "has.source", "param.timevarying", "step.compared"]
 
 STARTS_ENDS = [(2000, 2035), (2000, 2001), (2000, 2000.5), (1990, 2030), (2010.5, 2020), (2000, 2040), (2015, 2018), (2000.25, 2010.75), (2000, 2100), (1999, 2000.1)]
 DTS = [1.0, 0.5, 0.25, 0.2, 0.1, 1 / 12, 1 / 52, 1 / 365, 0.3, 0.7, 0.05, 0.125, 1 / 3, 0.4, 0.15, 2.0, 7 / 365, 0.6, 1 / 24, 0.35, 0.01, 1 / 6, 0.9, 1.5, 0.45]
@@ -84,6 +84,8 @@ def run_grid(ctx):
 
 def run(ctx):
     run_grid(ctx)
+    # conversion half: mode B on generated models (stage "resolve": parameter value -> per-step fraction -> people) + documented-conversion oracle
+    engine_corr.run_stream(ctx, PROPERTY, ctx.n(60, 2000), focus=lambda r: {"functions": r.random() < 0.5})
 
 
 def replay(ctx, data):
